@@ -144,8 +144,29 @@ class OracleRO:
     def plog(self, e, s):
         return OAtom('plog', e, params=parr(s))
 
+    def sumpexp(self, e, s):
+        return OAtom('sumpexp', e, params=parr(s))
+
+    def sumexp_bcast(self, e, Y):
+        # (exp(e) + Y).sum(), e broadcast to the shape of Y: sum_ij exp(e_j) + sum(Y)
+        Y = np.array(Y, dtype=float)
+        eb = np.broadcast_to(parr(e), Y.shape).reshape(-1)
+        return OAtom('sumexp', eb) + float(Y.sum())
+
+    def sumlog_bcast(self, e, Y):
+        Y = np.array(Y, dtype=float)
+        eb = np.broadcast_to(parr(e), Y.shape).reshape(-1)
+        return OAtom('sumlog', eb) + float(Y.sum())
+
+    def sumplog(self, e, s):
+        return OAtom('sumplog', e, params=parr(s))
+
     def sum(self, e, axis=None):
         return np.sum(e, axis=axis)
+
+    def formulate(self, solve=False):
+        """history step (real side only): formulate / solve the model as declared so far"""
+        return None
 
     def kldiv(self, p, q, r):
         """sum p log(p/q) <= r (a constraint)"""
@@ -332,8 +353,31 @@ class RealRO:
     def plog(self, e, s):
         return self.rso.plog(e, s)
 
+    def sumpexp(self, e, s):
+        return self.rso.pexp(e, s).sum()
+
+    def sumexp_bcast(self, e, Y):
+        return (self.rso.exp(e) + np.array(Y, dtype=float)).sum()
+
+    def sumlog_bcast(self, e, Y):
+        return (self.rso.log(e) + np.array(Y, dtype=float)).sum()
+
+    def sumplog(self, e, s):
+        return self.rso.plog(e, s).sum()
+
     def sum(self, e, axis=None):
         return e.sum(axis=axis) if axis is not None else e.sum()
+
+    def formulate(self, solve=False):
+        from .util import quiet
+        with quiet():
+            self.m.do_math()
+            if solve:
+                try:
+                    from rsome import eco_solver
+                    self.m.solve(eco_solver, display=False)
+                except Exception:
+                    pass
 
     def kldiv(self, p, q, r):
         return self.rso.kldiv(p, q, r)
